@@ -625,7 +625,10 @@ SubprocessResult run_process(const vector<string>& cmd, const string* stdin_data
         it.second->resize(it.second->size() - READ_BLOCK_SIZE + bytes_read);
       } else if (bytes_read < 0) {
         it.second->resize(read_offset);
-        if (errno == EAGAIN || errno == EINTR || errno == EWOULDBLOCK) {
+        if (errno == EINTR) {
+          continue; // interrupted before anything was read; the data is still there
+        }
+        if (errno == EAGAIN || errno == EWOULDBLOCK) {
           break;
         }
         throw runtime_error("read failed: " + string_for_error(errno));
